@@ -124,7 +124,7 @@ func (r *registrar) RegisterPort(p naming.Named)       { r.ports = append(r.port
 type Asm struct {
 	Cfg    *Config
 	Eng    *timing.SerialEngine
-	Reg    *registrar
+	Reg    modeling.Registrar
 	Reqs   []*Requester
 	Rob    *rob.Comp
 	WB     map[int]*writeback.Comp
@@ -170,11 +170,19 @@ const LowerCapacity = 1 << 20
 
 // Build assembles the hierarchy described by cfg on a fresh serial engine.
 func Build(cfg *Config, w *World) *Asm {
+	eng := timing.NewSerialEngine()
+	return BuildOn(&registrar{eng: eng}, cfg, w)
+}
+
+// BuildOn assembles the hierarchy on an existing registrar (for example a real
+// simulation.Simulation, whose serial engine is then used). When w.MakeReq is set
+// it supplies the requesters (checkpointable ones for the checkpoint properties).
+func BuildOn(reg modeling.Registrar, cfg *Config, w *World) *Asm {
 	a := &Asm{
-		Cfg: cfg, Eng: timing.NewSerialEngine(), Ports: map[string]messaging.Port{},
+		Cfg: cfg, Eng: reg.GetEngine().(*timing.SerialEngine), Ports: map[string]messaging.Port{},
 		Ctrl: map[string]messaging.Port{}, WB: map[int]*writeback.Comp{}, WT: map[int]*writethroughcache.Comp{},
 	}
-	a.Reg = &registrar{eng: a.Eng}
+	a.Reg = reg
 
 	newConn := func(name string) *directconnection.Comp {
 		spec := directconnection.DefaultSpec()
@@ -378,6 +386,11 @@ func Build(cfg *Config, w *World) *Asm {
 	topMapper := mapperFor(below, belowIL)
 
 	for i := range cfg.Reqs {
+		if w.MakeReq != nil {
+			conn.PlugIn(w.MakeReq(i, a, below, belowIL))
+			continue
+		}
+
 		r := newRequester(i, &cfg.Reqs[i], a, w, topMapper)
 		a.Reqs = append(a.Reqs, r)
 		conn.PlugIn(r.port)
